@@ -226,6 +226,79 @@ func cancelTrial(r *vh.Run, i int) {
 	r.Count("cancel_trials", 1)
 }
 
+// releaseHolderTrial: the directory store collects a repository when it leaves the repository cache (idle for a grace
+// period).  Here the repository is not idle at all: a request whose body the harness holds open has been using it for
+// longer than the grace period.  The collection that the expiry starts waits for that request; a request to ANOTHER
+// repository that arrives meanwhile is waiting for that collection too (through the store and cache locks) - so it
+// returns when its context is cancelled.  Decided by the stable-stall rule while the harness keeps the first request
+// open, never by a deadline.
+func releaseHolderTrial(r *vh.Run, i int) {
+	root := r.TempDir("c12h")
+	defer vh.RemoveAll(root)
+	grace := []time.Duration{40 * time.Millisecond, 120 * time.Millisecond}[i%2]
+	c := vh.Conf(vh.Dir, root, vh.Policy{Untagged: true, Grace: grace})
+	srv := vh.New(c)
+	wit := map[string]any{"trial": i, "store": "dir", "grace": grace.String()}
+	b := []byte(fmt.Sprintf("h%d", i))
+	vh.Do(srv, vh.Req{Method: "POST", URL: "/v2/c/blobs/uploads/?digest=" + vh.DigestOf("sha256", b), Body: b})
+	pr, pw := io.Pipe()
+	body := &pipeBody{r: pr, started: make(chan struct{})}
+	req1 := httptest.NewRequest("PUT", "/v2/c/manifests/held", body)
+	req1.Header.Set("Content-Type", vh.MTImage)
+	req1.ContentLength = -1
+	d1 := make(chan struct{})
+	go func() {
+		defer close(d1)
+		srv.ServeHTTP(httptest.NewRecorder(), req1)
+	}()
+	select {
+	case <-body.started:
+	case <-time.After(10 * time.Second):
+		r.Inconclusive("held request never started reading its body")
+		_ = pw.Close()
+		return
+	}
+	blocked, ignored := false, false
+	for attempt := 0; attempt < 150 && !blocked; attempt++ {
+		time.Sleep(20 * time.Millisecond)
+		ctx, cancel := context.WithCancel(context.Background())
+		d3 := make(chan int, 1)
+		go func() {
+			rs := vh.Do(srv, vh.Req{Method: "GET", URL: fmt.Sprintf("/v2/other%d/tags/list", attempt%3), Ctx: ctx})
+			d3 <- rs.Status
+		}()
+		select {
+		case <-d3:
+			cancel()
+			continue
+		case <-time.After(80 * time.Millisecond):
+		}
+		blocked = true
+		r.Count("requests_blocked_behind_release_collection", 1)
+		cancel()
+		res := vh.Watch(func() { <-d3 }, 2*time.Second, 30*time.Second)
+		if res.Stalled {
+			ignored = true
+			wit["blocked_goroutines"] = res.Desc
+			r.Violation("K11:cancel-ignored:behind-release-collection", fmt.Sprintf("directory store, grace period %s: a request has used repository c for longer than the grace period (its body is still coming); the collection started by the expiry of c in the repository cache waits for it with the cache lock held; GET /v2/other/tags/list arrives, its context is cancelled - it does not return: every goroutine inside olareg is blocked until the first client finishes", grace), wit)
+		} else if res.Done {
+			r.Count("cancelled_requests_returned", 1)
+		}
+	}
+	_, _ = pw.Write([]byte("{}"))
+	_ = pw.Close()
+	res := vh.Watch(func() { <-d1; _ = srv.Close() }, 5*time.Second, 60*time.Second)
+	if res.Stalled && !ignored {
+		wit["blocked_goroutines"] = res.Desc
+		r.Violation("close-hangs", "after releasing the held request, Close does not return", wit)
+		return
+	}
+	r.Count("release_holder_trials", 1)
+	if !blocked {
+		r.Count("release_holder_trials_never_blocked", 1)
+	}
+}
+
 // precancelTrial: requests that arrive with a context that is already cancelled (a client that has gone away before
 // the handler runs) - and requests cancelled at a random moment - must leave nothing behind: an ordinary request
 // afterwards returns and Close returns.  Decided by the stable-stall criterion, never by a deadline.
@@ -606,6 +679,10 @@ func main() {
 				legacyOpenTrial(r, i-nc-np-nt)
 			}
 		})
+	}
+	if !st {
+		nh := r.N(2, 30)
+		vh.Parallel(nh, 1, func(i int) { releaseHolderTrial(r, i) }) // one at a time: the stall rule looks at the whole process
 	}
 	if !st {
 		ns := r.N(12, 120)
